@@ -46,6 +46,12 @@ ASSUMPTIONS = [
     "with want_recv=1, want_send=0; an event still pending afterwards is counted as `undrained` (inconclusive), not "
     "reported as a violation",
     "a SyncFlag/Mailbox with delays used from one context is refused by cohdl (documented assertion): rejected",
+    "a wrapper whose VHDL has static errors (owned by C06/C07) is still simulated with Sim(check_static=False) when it "
+    "elaborates, and judged by the same monitor; if it does not elaborate the case is blocked_by_static",
+    "extra observations (configurations `xobs`): is_set()/is_clear() are additionally mirrored to status outputs "
+    "before the deciding call, between it and set()/clear() in source order, and after it; in the plain style all "
+    "observations a context makes in one clock must agree; no internal observer signal of the component may be "
+    "undefined ('U') after a clock (every signal a flag observation reads has a driver)",
     "unguarded clear (configurations `uclear`): SyncFlag.clear docstring 'This has no effect when it is already "
     "clear' - a clear() issued in a clock in which the consumer observes the flag as clear (on an empty flag, one clock "
     "after a receive, coinciding with a new set that is not yet visible) must neither create nor destroy an event; "
@@ -57,13 +63,15 @@ LEVEL = "exploration"
 
 
 # ------------------------------------------------------------------------- configurations
-def _cfg(comp, tx, rx, topo, style, send, order="obs_first", form=None, first="prod", uclear=False):
+def _cfg(comp, tx, rx, topo, style, send, order="obs_first", form=None, first="prod", uclear=False, xobs=False):
     if form is None:
         form = "none" if (tx, rx) == (0, 0) else "txrx"
     c = {"comp": comp, "tx": tx, "rx": rx, "form": form, "topo": topo, "style": style, "send": send, "order": order,
          "first": first}
     if uclear:
         c["uclear"] = True
+    if xobs:
+        c["xobs"] = True
     return c
 
 
@@ -85,6 +93,13 @@ def all_cfgs(maxd=3):
             out.append(_cfg("mailbox", tx, rx, "two", "plain", "guarded", uclear=True))
             out.append(_cfg("flag", tx, rx, "two", "coro", "guarded", uclear=True))
             out.append(_cfg("mailbox", tx, rx, "two", "coro", "guarded", uclear=True))
+            # several observer calls (status outputs) per context, before / between / after the hand-over call
+            out.append(_cfg("flag", tx, rx, "two", "plain", "guarded", xobs=True))
+            out.append(_cfg("mailbox", tx, rx, "two", "plain", "guarded", xobs=True))
+            out.append(_cfg("flag", tx, rx, "two", "coro", "guarded", xobs=True))
+            if (tx == 0) != (rx == 0):
+                out.append(_cfg("mailbox", tx, rx, "two", "coro", "guarded", xobs=True))
+                out.append(_cfg("flag", tx, rx, "two", "plain", "always", "act_first", xobs=True, uclear=True))
             if tx == rx and tx:
                 out.append(_cfg("flag", tx, rx, "two", "plain", "always", form="delay"))
                 out.append(_cfg("mailbox", tx, rx, "two", "plain", "guarded", form="delay"))
@@ -94,6 +109,8 @@ def all_cfgs(maxd=3):
     out.append(_cfg("mailbox", 0, 0, "same", "plain", "guarded"))
     out.append(_cfg("flag", 0, 0, "same", "plain", "guarded", first="cons"))
     out.append(_cfg("flag", 0, 0, "same", "plain", "guarded", uclear=True))
+    out.append(_cfg("flag", 0, 0, "same", "plain", "guarded", xobs=True))
+    out.append(_cfg("mailbox", 0, 0, "same", "plain", "guarded", first="cons", xobs=True))
     out.append(_cfg("flag", 0, 0, "same", "plain", "always", first="cons", uclear=True))
     out.append(_cfg("mailbox", 0, 0, "same", "plain", "guarded", uclear=True))
     # delays in one context: documented (assertion text) to be refused
@@ -109,7 +126,7 @@ def all_cfgs(maxd=3):
 def plan(tier):
     cfgs = all_cfgs()
     nsh = 16 if tier == "quick" else 32
-    per_cfg = 28 if tier == "quick" else 400
+    per_cfg = 22 if tier == "quick" else 320
     shards = []
     for i in range(nsh):
         mine = cfgs[i::nsh]
@@ -174,7 +191,8 @@ def _sig(cfg, obs):
         return {"comp": comp, "topo": "same", "delayed_same_ctx": True,
                 "delay_side": "both" if (cfg["tx"] and cfg["rx"]) else "tx" if cfg["tx"] else "rx", "obs": obs}
     return {"comp": comp, "topo": cfg["topo"], "style": cfg["style"], "send": cfg["send"], "tx": cfg["tx"],
-            "rx": cfg["rx"], "obs": obs, "delayed_same_ctx": False, "unguarded_clear": bool(cfg.get("uclear"))}
+            "rx": cfg["rx"], "obs": obs, "delayed_same_ctx": False, "unguarded_clear": bool(cfg.get("uclear")),
+            "extra_obs": bool(cfg.get("xobs"))}
 
 
 class _Driver:
@@ -185,6 +203,8 @@ class _Driver:
         self.mon = CoroMonitor(mb) if self.coro else PlainMonitor(mb)
         self.forced = 0
         self.forced_on_clear = 0
+        self.xobs = bool(cfg.get("xobs"))
+        self.obs_sigs = None
 
     def state(self):
         return self.mon.state()
@@ -205,14 +225,35 @@ class _Driver:
                 self.forced_on_clear += 1
         if None in (pclear, set_, cset, clr) or (clr and pout is None):
             return "undefined", [("undefined", f"undefined output: pclear={pclear} set={set_} cset={cset} clr={clr} payload={pout}")]
+        extra = []
+        if self.obs_sigs is None:
+            # observer ("indirect") signals the component creates for contexts whose role it does not know yet
+            self.obs_sigs = [x for x in sim.sigs if "indirect" in x.name.lower()]
+        for x in self.obs_sigs:
+            if sim._decode(x.ty, x.cur) is None:
+                extra.append(("undriven_observer", f"internal observer signal {x.name} is undefined ('U'): a flag "
+                              "observation reads a signal without a driver"))
+                break
+        if self.xobs:
+            st_ = {n: g("o_st_" + n) for n in ("p0", "p1", "p2", "c0", "c1", "c2")}
+            if None in st_.values():
+                extra.append(("undefined", f"undefined status output {st_}"))
+            elif not self.coro:
+                # all observations of one context in one clock see the same flag state
+                want = {"p0": 1 - pclear, "p1": pclear, "p2": 1 - pclear, "c0": 1 - cset, "c1": cset, "c2": 1 - cset}
+                diff = [n for n in want if st_[n] != want[n]]
+                if diff:
+                    extra.append(("observations_disagree", f"status observations {diff} = {[st_[n] for n in diff]} "
+                                  f"disagree with the deciding observation (producer is_clear={pclear}, consumer is_set={cset})"))
         if self.coro:
             bad = self.mon.step(pay, wr, set_, clr, pclear, pout)
+            return "run", bad + extra
         else:
             # an unguarded clear() issued while the consumer sees the flag set consumes the event (no payload read);
             # issued while it sees the flag clear it must change nothing (not reported to the monitor)
             bad = self.mon.step(pay, pclear, set_, cset, int(bool(clr) or bool(fclr and cset)), pout,
                                 check_payload=bool(clr))
-        return "run", bad
+        return "run", bad + extra
 
     def pending(self):
         if self.coro:
@@ -224,7 +265,9 @@ def check(case):
     cfg = case["cfg"]
     out = Outcome()
     key = canon(cfg)
-    b = build_cached(key, lambda: G.render(cfg), init=_ZERO)
+    # a design with static errors (C06/C07 own those) is still simulated when the engine can elaborate it: what the
+    # hand-over *does* is this property's observable
+    b = build_cached(key, lambda: G.render(cfg), init=_ZERO, despite_static=True)
     name = f"{cfg['comp']}/{cfg['topo']}/{cfg['style']}/{cfg['send']}"
     out.labels.append(f"{name}:{b.status}")
     if b.status != "ok":
@@ -233,6 +276,8 @@ def check(case):
             out.labels.append("static:" + b.info.split(":")[0])
         return out
     sim = b.sim
+    if b.static:
+        out.labels.append("simulated_despite_static:" + b.static.split(":")[0])
     drv = _Driver(cfg)
     zero = {k: v for k, v in _ZERO.items() if k != "clk"}
     out.labels.append(f"delays:tx{cfg['tx']}rx{cfg['rx']}")
@@ -310,7 +355,7 @@ def _simerror(out, cfg, key, e):
 def _cfg_name(cfg):
     return (f"{'Mailbox' if cfg['comp'] == 'mailbox' else 'SyncFlag'}/tx{cfg['tx']}rx{cfg['rx']}"
             f"{'(delay=)' if cfg['form'] == 'delay' else ''}/{cfg['topo']}/{cfg['style']}/{cfg['send']}/{cfg['order']}"
-            f"{'/cons_first' if cfg.get('first') == 'cons' else ''}{'/unguarded_clear' if cfg.get('uclear') else ''}")
+            f"{'/cons_first' if cfg.get('first') == 'cons' else ''}{'/unguarded_clear' if cfg.get('uclear') else ''}{'/extra_obs' if cfg.get('xobs') else ''}")
 
 
 def view(case):
